@@ -90,6 +90,12 @@ func runC13(p *Prog, r *Report) {
 			}
 		}
 	}
+	// R1 (addition): an entry's record is its own: stages hand over freshly built requests / frames / error
+	// carriers, never an object they rewrite for the next entry
+	checkHandOverFreshness(p, r, "C13.R1", func(fn *ssa.Function) bool {
+		return fn.Pkg == p.SPkg("pkg/scan") || fn.Pkg == p.SPkg("pkg/scan/arp") || fn.Pkg == p.SPkg("pkg/packet")
+	})
+	checkScannerBuffers(p, r, "C13.R1")
 	// R3 (addition): the error record is not lost in the logger: no sampling (C08.R6 re-evaluated)
 	checkErrorLogger(p, r, "C13.R3")
 	// R4: import the builder and worker contracts
